@@ -46,9 +46,10 @@ TChmod   == Ev.a = "Chmod"   /\ ((Accept(CanAttr(Ev.p), tree, {Ev.p}, {"mode"}) 
 TChown   == Ev.a = "Chown"   /\ ((Accept(CanAttr(Ev.p), tree, {Ev.p}, {"uid", "gid"}) /\ At[Ev.p].uid = Ev.v /\ At[Ev.p].gid = Ev.w) \/ Refuse({Ev.p}))
 TChtimes == Ev.a = "Chtimes" /\ ((Accept(CanAttr(Ev.p), tree, {Ev.p}, {"mt", "at"}) /\ At[Ev.p].mt = Ev.v /\ At[Ev.p].at = Ev.w) \/ Refuse({Ev.p}))
 \* macro calls whose net effect on the universe is nil: Churn creates k temporary entries in a
-\* directory (growing it past one block) and removes them again; BigFile writes a multi-block
+\* directory (growing it past one block) and removes them again; Straddle does so in a fresh directory
+\* after using up the free blocks below a block-group boundary (the directory grows across it); BigFile writes a multi-block
 \* file outside the universe in pieces, reads it back live and after re-opening (bigok), removes it
-TChurn   == Ev.a \in {"Churn", "Churn2"} /\ Ev.res = "ok" /\ Clean /\ Api = tree /\ Api2 = tree /\ AttrFrame({Ev.p}, Times) /\ attr' = At /\ UNCHANGED <<tree, out>>
+TChurn   == Ev.a \in {"Churn", "Churn2", "Straddle"} /\ Ev.res = "ok" /\ Clean /\ Api = tree /\ Api2 = tree /\ AttrFrame({Ev.p}, Times) /\ attr' = At /\ UNCHANGED <<tree, out>>
 TBigFile == Ev.a = "BigFile" /\ Ev.res = "ok" /\ Clean /\ Ev.bigok /\ Api = tree /\ Api2 = tree /\ AttrFrame({}, {}) /\ UNCHANGED vars
 Match == Ev.panic = "" /\ (TChurn \/ TBigFile \/ TMkdir \/ TCreate \/ TWrite \/ TAppend \/ TSymlink \/ TRemove \/ TChmod \/ TChown \/ TChtimes)
 InRange  == l <= Len(Trace)
